@@ -1288,6 +1288,13 @@ class Machine:
             return ("range", self.num(args[0]))
         if name == "int":
             (v,) = args
+            if isinstance(v, SqrtVal) and getattr(v, "rounded", False):
+                # int(round(math.sqrt(x))): the integer nearest to the square root: (2r-1)^2 <= 4x < (2r+1)^2 (no ties: 4x is even)
+                r = self.fresh("rsqrt")
+                x = to_z3(v.x)
+                self.assume(z3.And(r >= 0, z3.Or(r == 0, self.abs_mul(2 * r - 1, 2 * r - 1) <= 4 * x), 4 * x < self.abs_mul(2 * r + 1, 2 * r + 1)))
+                self.ctx.assumed.add("int(round(math.sqrt(x))) is the integer nearest to the square root (exact below 2^52)")
+                return r
             if isinstance(v, SqrtVal):
                 # assumed contract (DESIGN 6.1): int(math.sqrt(x)) is the integer square root of x
                 r = self.fresh("isqrt")
@@ -1303,6 +1310,10 @@ class Machine:
             sq = self.as_seq(v)
             self.check_bytes_range(sq, "bytes()", node)
             return sq.with_kind("bytes")
+        if name == "round" and len(args) == 1 and isinstance(args[0], SqrtVal):
+            rv = SqrtVal(args[0].x)
+            rv.rounded = True
+            return rv
         if name in ("min", "max") and len(args) == 2:
             a, b = self.num(args[0]), self.num(args[1])
             if not (is_z3(a) or is_z3(b)):
@@ -2072,5 +2083,5 @@ class SpecFun:
 BITAT = z3.Function("BITAT", z3.IntSort(), z3.IntSort(), z3.IntSort())
 MUL = z3.Function("MUL", z3.IntSort(), z3.IntSort(), z3.IntSort())
 
-BUILTINS = {"ord", "chr", "len", "range", "int", "bytes", "min", "max", "print", "open", "bytearray"}
+BUILTINS = {"ord", "chr", "len", "range", "int", "bytes", "min", "max", "print", "open", "bytearray", "round"}
 SPEC_BUILTINS = {"forallq", "bitat", "copy", "inst", "assume", "forall", "exists", "implies", "fmt", "ite", "fill", "store", "seq", "subseq", "as_str", "as_bytes", "as_list"}
